@@ -23,10 +23,11 @@
 (*     n < 2^52, so below that the clause is exact.                          *)
 (*   * trailing zeros that are shown count as significant ("1.0" has two).   *)
 (*                                                                           *)
-(* DESIGN LAYER: the prefix-selection loop of readable_count in exact        *)
-(* arithmetic.  Threshold = "gt10" is the code as written (".0f" when        *)
-(* count > 10 * factor, else ".1f"); Threshold = "byLength" tries ".1f" and  *)
-(* falls back to ".0f" when that is longer than 3 characters (conforming).   *)
+(* DESIGN LAYER: the prefix-selection loop of readable_count, the float64    *)
+(* quotient modelled exactly (53 significant bits).  Threshold = "gt10" is   *)
+(* the code before fix 7cbc19a (".0f" when count > 10 * factor, else ".1f"); *)
+(* Threshold = "byLength" tries ".1f" and falls back to ".0f" when that is   *)
+(* longer than 3 characters (conforming; the code since that fix).           *)
 EXTENDS BitsNum
 
 CONSTANT Threshold
@@ -87,9 +88,12 @@ ReadableClause(n, s) ==
 ReadableOk(n, s) == ReadableClause(n, s) = "ok"
 
 \* ------------------------------------------------------------- design -----
-\* n / 1024^k (times 10 when f = 1) rounded half-even
+\* n / 1024^k (times 10 when f = 1) rounded half-even.  The code divides in
+\* float64: the quotient is n rounded to 53 significant bits, scaled exactly;
+\* "%.1f" / "%.0f" then round that double correctly (half-even).
 RoundedBits(n, k, f) ==
-  LET m == IF f = 1 THEN Times10(n) ELSE n
+  LET q == RoundSigBits(n, 53)
+      m == IF f = 1 THEN Times10(q) ELSE q
   IN RoundMagHE(ShiftR(m, Base * k), Reverse(Pad(Low(m, Base * k), Base * k)))
 \* ... as a small natural; 10^6 stands for "a million or more" (7 characters
 \* at least: always too long for the loop, never printed for n < 2^80)
